@@ -111,6 +111,8 @@ def cgame(g):
         raise NotRepresentable(e)
     tl = []
     for i, row in enumerate(g["transition_list"]):
+        if not isinstance(row, list) or any(not (isinstance(t, tuple) and len(t) == 2) for t in row):
+            raise NotRepresentable(row)
         kind = g["players"][i] if i < len(g["players"]) else PR
         tl.append(clist([ctrans(kind, t) for t in row]))
     for f in g["final_states"]:
